@@ -93,6 +93,19 @@ def isolation(ctx, n):
     from deep.api.resource import Resource
     from deep.api.tracepoint.trigger import LocationAction, Trigger, LineLocation, Location
     from deep.api.tracepoint.tracepoint_config import MetricDefinition
+    _healthy = []
+
+    def healthy_metrics_complete():
+        """Two definitions x three healthy processors, one hit: are all six reports made?  (computed once)"""
+        if not _healthy:
+            from deep.api.tracepoint.trigger import LocationAction as LA, Trigger as TR, LineLocation as LL, Location as LO
+            w2 = e2.World(logger=False, spans=0, metrics=3)
+            w2.install([TR(LL("m.py", 7, LO.Position.START), [LA("tp-met", None, {"fire_count": "-1", "fire_period": "0", "metrics": [
+                MetricDefinition("m1", "COUNTER"), MetricDefinition("m2", "COUNTER")]}, LA.ActionType.Metric)])])
+            w2.event(e2.mk_frame("/app/m.py", "g", 7, {}), "line")
+            _healthy.append(len([1 for w, _t, _i, _p in w2.log if w == "metric"]) == 6)
+            w2.clear_pending()
+        return _healthy[0]
     import deep.api.deep as api
     rng = ctx.rng
     RecLogger, RecSpans, RecMetrics = e2.plugin_classes()
@@ -206,7 +219,9 @@ def isolation(ctx, n):
                 sorted(closed), sorted(want_open)), j, tag="span-close")
         mets = [(p["proc"], p["name"]) for w, _t, _i, p in world.log if w == "metric"]
         want_m = [("metrics%d" % i, m) for m in ("m1", "m2") for i in range(nmet) if not bad_met[i]]
-        if sorted(mets) != sorted(want_m):
+        if sorted(mets) != sorted(want_m) and not healthy_metrics_complete():
+            ctx.skip("metric reporting is incomplete even when no processor fails (C17): isolation of metric processors cannot be examined")
+        elif sorted(mets) != sorted(want_m):
             ctx.fail("metric reports %r, expected every definition at every healthy processor: %r" % (sorted(mets), sorted(want_m)), j,
                      tag="metric-isolation")
         snaps = [p for w, _t, _i, p in world.log if w == "snapshot"]
